@@ -182,9 +182,9 @@ def bounded_candidate(obl, timeout_ms=20000):
     return None
 
 
-def discharge(obl, tier='quick', second_opinion=False, cvc5_ok=True):
+def discharge(obl, tier='quick', second_opinion=False, cvc5_ok=True, rl_div=1):
     """returns dict(status, backend, seconds, model, quantified)"""
-    rl = RLIMIT_QUICK if tier == 'quick' else RLIMIT_THOROUGH
+    rl = (RLIMIT_QUICK if tier == 'quick' else RLIMIT_THOROUGH) // rl_div
     if z3.is_true(obl.goal):
         # decided by term simplification while the path was executed (concrete shapes fold completely)
         return {'backend': 'simplifier', 'seconds': 0.0, 'quantified': False, 'rlimit_used': 0, 'model': None, 'cvc5': None, 'status': 'proved'}
@@ -211,6 +211,13 @@ def discharge(obl, tier='quick', second_opinion=False, cvc5_ok=True):
         res['status'] = 'refuted'      # z3 reports sat on quantified input only after checking the model (else unknown)
         res['model'] = model
         return res
+    if not cvc5_ok:
+        # the fallback budget of this contract is used up (only happens when many of its obligations are already open or refuted):
+        # no portfolio, no candidate search, no second solver for the rest
+        res['status'] = 'unknown'
+        res['cvc5'] = 'skipped:budget'
+        return res
+    t_fb = time.time()
     if quant:
         # quantified obligations are sensitive to the instantiation strategy: a small portfolio (an `unsat` is a proof whichever
         # configuration finds it; nothing else is concluded from these attempts)
@@ -218,7 +225,7 @@ def discharge(obl, tier='quick', second_opinion=False, cvc5_ok=True):
             r3, dt3, _, used3 = check_z3(obl, rl, assumptions=ass, opts=opts)
             res['seconds'] += dt3
             if r3 == 'unsat':
-                res.update({'status': 'proved', 'backend': 'z3', 'rlimit_used': used3, 'portfolio': str(opts)})
+                res.update({'status': 'proved', 'backend': 'z3', 'rlimit_used': used3, 'portfolio': str(opts), 'cvc5_fallback_seconds': time.time() - t_fb})
                 return res
     # candidate counter-model by finite instantiation (DESIGN 2.7 step 2): every quantifier is expanded over a small
     # universe, the result is quantifier-free and decided; the model is only ever used to build an input that is then
@@ -229,14 +236,9 @@ def discharge(obl, tier='quick', second_opinion=False, cvc5_ok=True):
             res['candidate_model'] = cm
     except Exception as e:
         res['candidate_error'] = f'{type(e).__name__}: {e}'
-    if not cvc5_ok:
-        # the fallback budget of this contract is used up (only happens when many obligations are already open or refuted)
-        res['status'] = 'unknown'
-        res['cvc5'] = 'skipped:budget'
-        return res
     r2, dt2 = check_cvc5(obl, 20 if tier == 'quick' else 120)
     res['cvc5'] = r2
-    res['cvc5_fallback_seconds'] = dt2
+    res['cvc5_fallback_seconds'] = time.time() - t_fb
     res['seconds'] += dt2
     if r2 == 'unsat':
         res['status'] = 'proved'
